@@ -238,3 +238,45 @@ func (s *Solver) SolveQuick(name, query string) *SolveResult {
 	}
 	return res
 }
+
+// SolveFresh races all back ends on the query without consulting the cache.
+func (s *Solver) SolveFresh(name, query string) *SolveResult {
+	s.mu.Lock()
+	s.Queries++
+	s.mu.Unlock()
+	file := filepath.Join(s.Dir, mangle(name)+fmt.Sprintf("-%x.smt2", sha256.Sum256([]byte(query)))[:40])
+	if len(filepath.Base(file)) > 200 {
+		file = filepath.Join(s.Dir, fmt.Sprintf("r-%x.smt2", sha256.Sum256([]byte(query)))[:40])
+	}
+	if err := os.WriteFile(file, []byte(query), 0o644); err != nil {
+		return &SolveResult{Status: "error", Output: err.Error()}
+	}
+	ctx, cancel := context.WithCancel(context.Background())
+	ch := make(chan *SolveResult, len(solverCmds))
+	for _, sc := range solverCmds {
+		sc := sc
+		go func() { ch <- runOne(ctx, sc, file, s.Timeout) }()
+	}
+	var last *SolveResult
+	for range solverCmds {
+		r := <-ch
+		if r.Status == "unsat" || r.Status == "sat" {
+			last = r
+			break
+		}
+		if last == nil || (last.Status == "error" && r.Status != "error") {
+			last = r
+		}
+	}
+	cancel()
+	s.mu.Lock()
+	if last.Status == "unsat" || last.Status == "sat" {
+		s.Stats[last.Solver]++
+		s.Time[last.Solver] += last.Seconds
+	}
+	s.mu.Unlock()
+	if !s.KeepSMT && last.Status == "unsat" {
+		os.Remove(file)
+	}
+	return last
+}
